@@ -3002,7 +3002,12 @@ MANIFEST = {
             "every run, as are the decisions of nat_norm, real_norm, int_eq_macro and int_norm_eq; proplogic.norm_full / sort_conj / "
             "sort_disj on member sets (oracle only). Fast evaluation against checked proof term for every Conv class overriding "
             "eval and for nat_norm. Every Conv subclass of the six modules is run on generated terms of its domain and judged by "
-            "the real proof checker; binder-traversing conversions on de Bruijn inputs with clashing names.",
+            "the real proof checker; binder-traversing conversions on de Bruijn inputs with clashing names; HISTORIES through the "
+            "module-level caches of logic/auto.py (norm_record, solve_record; every *_record/*_cache dict and functools cache of "
+            "logic/auto.py, logic/conv.py, data/real.py, data/nat.py, data/integer.py is found by introspection): the same term "
+            "normalised with and without conditions in varying orders by auto_conv, real_norm_comparison, combine_atom -- every "
+            "result judged on its own (lhs, hypotheses within ITS conditions, checker) and compared with what the same call "
+            "returns from a cleared state.",
     "note": "Outside the modelled fragment: of_nat, division by "
             "non-constants, real powers, nat truncated subtraction (atoms). int: from_poly writes powers that int's convert_to_poly "
             "reads as atoms, so from_poly o convert_to_poly is only claimed stable for reals (and ints without power atoms). "
